@@ -177,7 +177,9 @@ func pointMutation(a, b string, vocabulary map[string]bool) string {
 	}
 	x, y := ta[diff], tb[diff]
 	isNum := func(s string) bool { return s[0] >= '0' && s[0] <= '9' }
-	isWord := func(s string) bool { return s[0] == '_' || (s[0] >= 'a' && s[0] <= 'z') || (s[0] >= 'A' && s[0] <= 'Z') }
+	isWord := func(s string) bool {
+		return s[0] == '_' || (s[0] >= 'a' && s[0] <= 'z') || (s[0] >= 'A' && s[0] <= 'Z')
+	}
 	switch {
 	case isNum(x) && isNum(y):
 		return "constant changed"
